@@ -191,3 +191,63 @@ Theorem C04_code_tactic_trivial :
        wft term -> PolyhedralTermList__tactic_trivial term ctx vs refine = ret (Some (term_copy term), 1%nat).
 Proof. exact @tactic_trivial_eq. Qed.
 Print Assumptions C04_code_tactic_trivial.
+
+(* ==== T1 tie (tactic 5 context, context reduction) ==== *)
+Require Import PyNumpy PyLinalg PolyGen PolyGenBase TlpGen TlpGenBase TlpGenContext TlpGenReduction TlpGenFacts.
+(* T1 tie: _get_tlp_context (tactic 5: LP over the context, LP-active rows, multiplier sign check with np.linalg.solve on the TRANSPOSED row matrix), _context_reduction (shared by tactics 1, 3, 5) and PolyhedralTerm.solve_for_variables as translated ON THIS RUN (gen/TlpGen.v; np.linalg.solve, np.isclose on the slack and sympy.solve are named primitives, model_linalg = exact Gauss-Jordan) ARE model/Tactics.v; and the _context_reduction primitive used by the term-list equalities above IS that generated function, so tactics 1, 3 and 5, the TACTICS table and _transform_term run on translated code down to the LP / solve primitives. proofs/TlpGen*.v *)
+Theorem C04_code_get_tlp_context :
+  forall (O : oracle) (term : pterm) (ctx : list pterm) (vs : list var) (refine : bool),
+       @list_intersection var PyEq_var vs (term_vars_p term) <> [] ->
+       slack_fits O (tlp_lp term ctx vs refine) ->
+       @PolyhedralTermList__get_tlp_context (poly_lp O) model_linalg term ctx vs refine =
+       get_tlp_context O term ctx vs refine.
+Proof. exact @get_tlp_context_eq. Qed.
+Print Assumptions C04_code_get_tlp_context.
+Theorem C04_code_solve_for_variables :
+  forall (ctx : list pterm) (vs : list var),
+       @PolyhedralTerm_solve_for_variables model_linalg ctx vs = solve_for_variables ctx vs.
+Proof. exact @solve_for_variables_eq. Qed.
+Print Assumptions C04_code_solve_for_variables.
+Theorem C04_code_context_reduction :
+  forall (O0 : oracle) (term : pterm) (ctx : list pterm) (vs : list var) (refine : bool) (strategy : nat),
+       wft term ->
+       @Forall pterm wft ctx ->
+       (strategy = 5%nat ->
+        @list_intersection var PyEq_var vs (term_vars_p term) <> [] /\ slack_fits O0 (tlp_lp term ctx vs refine)) ->
+       @PolyhedralTermList__context_reduction (poly_lp O0) model_linalg term ctx vs refine strategy =
+       context_reduction O0 term ctx vs refine strategy.
+Proof. exact @context_reduction_eq. Qed.
+Print Assumptions C04_code_context_reduction.
+Theorem C04_code_context_reduction_is_generated :
+  forall (O0 : oracle) (term : pterm) (ctx : list pterm) (vs : list var) (refine : bool) (strategy : nat),
+       wft term ->
+       @Forall pterm wft ctx ->
+       (strategy = 5%nat ->
+        @list_intersection var PyEq_var vs (term_vars_p term) <> [] /\ slack_fits O0 (tlp_lp term ctx vs refine)) ->
+       @p_context_reduction (poly_prims O0) term ctx vs refine strategy =
+       @PolyhedralTermList__context_reduction (poly_lp O0) model_linalg term ctx vs refine strategy.
+Proof. exact @poly_prims_context_reduction_generated. Qed.
+Print Assumptions C04_code_context_reduction_is_generated.
+Theorem C04_code_tactics_table_closed :
+  forall (O : oracle) (vs : list var),
+       @NoDup var vs ->
+       ~ @In var "_"%string vs ->
+       oracle_slack_ok O ->
+       forall (num : nat) (term : pterm) (ctx : list pterm) (refine : bool),
+       wft' term ->
+       @Forall pterm wft' ctx ->
+       @list_intersection var PyEq_var vs (term_vars_p term) <> [] ->
+       @PolyhedralTermList_TACTICS (poly_prims_gen O) num term ctx vs refine = run_tactic O num term ctx vs refine.
+Proof. exact @tactics_table_closed. Qed.
+Print Assumptions C04_code_tactics_table_closed.
+Theorem C04_code_transform_term_closed :
+  forall (O : oracle) (vs : list var) (order : list nat) (term : pterm) (ctx : list pterm) (refine : bool),
+       @NoDup var vs ->
+       ~ @In var "_"%string vs ->
+       oracle_slack_ok O ->
+       wft' term ->
+       @Forall pterm wft' ctx ->
+       PolyhedralTermList__transform_term (@PolyhedralTermList_TACTICS (poly_prims_gen O)) term ctx vs refine
+         (@Some (list nat) order) = transform_term O order term ctx vs refine.
+Proof. exact @transform_term_closed_gen. Qed.
+Print Assumptions C04_code_transform_term_closed.
